@@ -266,3 +266,45 @@ package pql
 //@   invariant forall(r, 0, old(alloc()), fieldheap("subquery", "sort")[r] == old(fieldheap("subquery", "sort"))[r])
 //@   invariant forall(r, 0, old(alloc()), fieldheap("subquery", "take")[r] == old(fieldheap("subquery", "take"))[r])
 //@   decreases len(expr.Operators) - i
+
+// ---------------------------------------------------------------- Compile
+
+//@ func parser.Parse
+//@   use compile
+//@   trusted the parser productions are not yet under contract: on success Parse returns well-formed statements (Appendix D of DESIGN.md)
+//@   ensures result1 == nil ==> stmtsWF(query, result0, len(result0))
+
+//@ func pql.Compile
+//@   ensures @either: (result0 != "" && result1 == nil) || (result0 == "" && result1 != nil)
+
+//@ func pql.(*CompileOptions).Compile
+//@   use compile
+//@   hide expr joincond view
+//@   ensures @either: (result0 != "" && result1 == nil) || (result0 == "" && result1 != nil)
+//@   ensures @ok.query: expr == FQ(stmts, len(stmts)) && NQ(stmts, len(stmts)) == 1 && tabWF(source, expr)
+//@   ensures @ok.scopedom: mapdom(scope) == SD(stmts, len(stmts), atloop(2, mapdom(scope)), atloop(2, mapval(scope)))
+//@   ensures @ok.scopeval: mapval(scope) == SV(stmts, len(stmts), atloop(2, mapdom(scope)), atloop(2, mapval(scope)))
+//@   ensures @ok.params: forallS(k, "Str", atloop(2, mapdom(scope))[k] == ite(opts == nil, false, mapdom(opts.Parameters)[k]))
+//@   ensures @ok.paramvals: opts != nil ==> forallS(k, "Str", mapdom(opts.Parameters)[k] ==> atloop(2, mapval(scope))[k] == mapval(opts.Parameters)[k])
+//@   ensures @ok.plan: viewL(fieldheap("subquery", "name"), fieldheap("subquery", "sourceSQL"), fieldheap("subquery", "op"), fieldheap("subquery", "sort"), fieldheap("subquery", "take"), subqueries, len(subqueries)) == SplitT(mapdom(scope), mapval(scope), expr, Seq_Sub.empty)
+//@   ensures @ok.text: result0 == Out.str(StmtOut(mapdom(scope), mapval(scope), source, viewL(fieldheap("subquery", "name"), fieldheap("subquery", "sourceSQL"), fieldheap("subquery", "op"), fieldheap("subquery", "sort"), fieldheap("subquery", "take"), subqueries, len(subqueries))))
+//@ loop 1
+//@   invariant scope != nil && scope >= old(alloc()) && scope < alloc() && opts != nil
+//@   invariant forallS(k, "Str", mapdom(scope)[k] == seen[k])
+//@   invariant forallS(k, "Str", seen[k] ==> mapdom(opts.Parameters)[k] && mapval(scope)[k] == mapval(opts.Parameters)[k])
+//@   invariant forall(r, 0, old(alloc()), maparr("dom")[r] == old(maparr("dom"))[r]) && forall(r, 0, old(alloc()), maparr("val")[r] == old(maparr("val"))[r])
+//@ loop 2
+//@   invariant -1 <= rangeindex && rangeindex < len(stmts) && stmtsWF(source, stmts, len(stmts))
+//@   invariant scope != nil && scope >= old(alloc()) && scope < alloc()
+//@   invariant mapdom(scope) == SD(stmts, rangeindex + 1, atloop(2, mapdom(scope)), atloop(2, mapval(scope)))
+//@   invariant mapval(scope) == SV(stmts, rangeindex + 1, atloop(2, mapdom(scope)), atloop(2, mapval(scope)))
+//@   invariant expr == FQ(stmts, rangeindex + 1) && QB(stmts, rangeindex + 1) == (expr != nil) && NQ(stmts, rangeindex + 1) == ite(expr != nil, 1, 0)
+//@   invariant expr != nil ==> tabWF(source, expr)
+//@   invariant forall(r, 0, old(alloc()), maparr("dom")[r] == old(maparr("dom"))[r]) && forall(r, 0, old(alloc()), maparr("val")[r] == old(maparr("val"))[r])
+//@   invariant forall(r, 0, old(alloc()), out(r) == old(out(r)))
+//@   decreases len(stmts) - rangeindex
+//@ loop 3
+//@   invariant -1 <= rangeindex && rangeindex < len(subqueries) - 1 && sb != nil && sb >= old(alloc())
+//@   invariant WCtes(mapdom(scope), mapval(scope), source, viewL(fieldheap("subquery", "name"), fieldheap("subquery", "sourceSQL"), fieldheap("subquery", "op"), fieldheap("subquery", "sort"), fieldheap("subquery", "take"), subqueries, len(subqueries)), rangeindex + 1, len(subqueries) - 1, out(sb)) == WCtes(mapdom(scope), mapval(scope), source, viewL(fieldheap("subquery", "name"), fieldheap("subquery", "sourceSQL"), fieldheap("subquery", "op"), fieldheap("subquery", "sort"), fieldheap("subquery", "take"), subqueries, len(subqueries)), 0, len(subqueries) - 1, olit(OEmpty, "WITH "))
+//@   invariant forall(r, 0, old(alloc()), out(r) == old(out(r)))
+//@   decreases len(subqueries) - rangeindex
